@@ -323,7 +323,10 @@ func (b *BloomSearchEngine) Stop(ctx context.Context) error {
 		stopAfter()
 		return nil
 	case <-ctx.Done():
-		// Timeout occurred
+		// Timeout occurred. Cancel flush work before returning: the AfterFunc
+		// armed above runs on its own goroutine and may not have run yet, and a
+		// queued flush must not start store work after Stop has returned.
+		b.flushCancel()
 		return fmt.Errorf("shutdown timeout exceeded: %w", ctx.Err())
 	}
 }
